@@ -1,3 +1,303 @@
-(* C15 -- wire and disk encodings are exact, stable and unambiguous (work in progress) *)
-From Coq Require Import ZArith List String Bool.
-From GCA Require Import Bytes Codec CodecStats CodecServers.
+(* C15 -- wire and disk encodings are exact, stable and unambiguous.
+   Only statements, each closed by [exact] (or by evaluation, for the obligations on the
+   layouts regenerated from the Go source); proofs live in Layout_lemmas.v, Codec_lemmas.v,
+   CodecStats_lemmas.v, CodecServers_lemmas.v. *)
+From Coq Require Import ZArith List String Bool Lia Permutation.
+From GCA Require Import Bytes Bytes_lemmas Codec Layout Layout_lemmas Codec_lemmas
+  CodecStats CodecStats_lemmas CodecServers CodecServers_lemmas.
+From GCAgen Require Layouts.
+Import ListNotations.
+Open Scope Z_scope.
+Notation length := List.length.
+
+(* ==== generic: every well-formed layout is a codec (T3) ================================== *)
+Theorem c15_layout_roundtrip K L vs : layout_wf K L = true -> Forall2 val_ok L vs ->
+  layout_decode K L (encode_vals L vs) = Some vs /\ length (encode_vals L vs) = K.
+Proof.
+  intros H V. exact (conj (layout_roundtrip K L vs H V)
+    (layout_encode_length K L vs H (eq_sym (Forall2_length' _ _ _ V)))).
+Qed.
+Theorem c15_layout_length_refused K L b : length b <> K -> layout_decode K L b = None.
+Proof. exact (layout_length_refused K L b). Qed.
+Theorem c15_layout_injective K L vs1 vs2 : layout_wf K L = true -> Forall2 val_ok L vs1 -> Forall2 val_ok L vs2 ->
+  encode_vals L vs1 = encode_vals L vs2 -> vs1 = vs2.
+Proof. exact (layout_injective K L vs1 vs2). Qed.
+Theorem c15_layout_decode_encode K L b vs : layout_wf K L = true -> layout_decode K L b = Some vs ->
+  encode_vals L vs = b /\ Forall2 val_ok L vs.
+Proof. exact (layout_decode_encode K L b vs). Qed.
+Theorem c15_layout_injective_env K L e1 e2 : layout_wf K L = true -> env_ok L e1 -> env_ok L e2 ->
+  layout_encode L e1 = layout_encode L e2 -> forall f, In f L -> e1 (f_name f) = e2 (f_name f).
+Proof. exact (layout_injective_env K L e1 e2). Qed.
+
+(* ==== the layouts regenerated from the Go source on this run ================================ *)
+(* each: the walker understood every statement, the buffer size is the documented one, the
+   fields (sorted by offset) are the documented layout, which is well-formed *)
+Definition gen_ok (g : glayout) (K : nat) (doc : layout) : Prop :=
+  g_unknown g = [] /\ g_size g = K /\ layout_norm (g_fields g) = doc /\ layout_wf K doc = true.
+
+Theorem c15_gen_report_serialize : gen_ok Layouts.EquipmentReport_Serialize 80 report_layout.
+Proof. vm_compute. repeat split; reflexivity. Qed.
+Theorem c15_gen_report_deserialize :
+  gen_ok Layouts.DeserializeReport 80 report_layout /\
+  layout_norm (g_fields Layouts.DeserializeReport) = layout_norm (g_fields Layouts.EquipmentReport_Serialize).
+Proof. vm_compute. repeat split; reflexivity. Qed.
+Theorem c15_gen_report_signing : gen_ok Layouts.EquipmentReport_SigningBytes 31 report_signing_layout.
+Proof. vm_compute. repeat split; reflexivity. Qed.
+Theorem c15_gen_auth_serialize : gen_ok Layouts.EquipmentAuthorization_Serialize 148 auth_layout.
+Proof. vm_compute. repeat split; reflexivity. Qed.
+Theorem c15_gen_auth_deserialize :
+  gen_ok Layouts.DeserializeEquipmentAuthorization 148 auth_layout /\
+  layout_norm (g_fields Layouts.DeserializeEquipmentAuthorization) =
+  layout_norm (g_fields Layouts.EquipmentAuthorization_Serialize).
+Proof. vm_compute. repeat split; reflexivity. Qed.
+Theorem c15_gen_reg_signing : gen_ok Layouts.GCARegistration_SigningBytes 47 reg_signing_layout.
+Proof. vm_compute. repeat split; reflexivity. Qed.
+
+(* the hand-written reference codecs ARE the documented layouts *)
+Theorem c15_codec_is_layout :
+  (forall r, report_serialize r = encode_vals report_layout (report_vals r)) /\
+  (forall b, report_decode b = option_map report_of_vals (layout_decode 80 report_layout b)) /\
+  (forall r, report_signing_bytes r = encode_vals report_signing_layout (report_signing_vals r)) /\
+  (forall a, auth_serialize a = encode_vals auth_layout (auth_vals a)) /\
+  (forall b, auth_decode b = option_map auth_of_vals (layout_decode 148 auth_layout b)) /\
+  (forall k, reg_signing_bytes k = encode_vals reg_signing_layout (reg_signing_vals k)).
+Proof.
+  exact (conj report_serialize_layout (conj report_decode_layout (conj report_signing_bytes_layout
+        (conj auth_serialize_layout (conj auth_decode_layout reg_signing_bytes_layout))))).
+Qed.
+
+(* ==== EquipmentReport (80 bytes) ============================================================= *)
+Theorem c15_report_roundtrip r : report_wf r -> report_decode (report_serialize r) = Some r.
+Proof. exact (report_roundtrip r). Qed.
+Theorem c15_report_length_refused b : length b <> 80%nat -> report_decode b = None.
+Proof. exact (report_length_refused b). Qed.
+Theorem c15_report_decode_encode b r : report_decode b = Some r -> report_serialize r = b /\ report_wf r.
+Proof. exact (report_decode_encode b r). Qed.
+Theorem c15_report_decode_injective b1 b2 r : report_decode b1 = Some r -> report_decode b2 = Some r -> b1 = b2.
+Proof. exact (report_decode_injective b1 b2 r). Qed.
+Theorem c15_report_layout r :
+  report_serialize r = le_enc 4 (r_id r) ++ le_enc 4 (r_ts r) ++ le_enc 8 (r_p r) ++ pad 64 (r_sig r) /\
+  length (report_serialize r) = 80%nat.
+Proof. exact (conj eq_refl (report_serialize_length r)). Qed.
+Theorem c15_report_signing_layout r :
+  report_signing_bytes r = ascii_bytes "EquipmentReport" ++ le_enc 4 (r_id r) ++ le_enc 4 (r_ts r) ++ le_enc 8 (r_p r) /\
+  length (report_signing_bytes r) = 31%nat.
+Proof. exact (conj eq_refl (report_signing_length r)). Qed.
+Theorem c15_report_signing_injective r1 r2 : report_wf r1 -> report_wf r2 ->
+  report_signing_bytes r1 = report_signing_bytes r2 -> r_id r1 = r_id r2 /\ r_ts r1 = r_ts r2 /\ r_p r1 = r_p r2.
+Proof. exact (report_signing_injective r1 r2). Qed.
+
+(* ==== EquipmentAuthorization (148 bytes) ====================================================== *)
+Theorem c15_auth_roundtrip a : auth_wf a -> auth_decode (auth_serialize a) = Some a.
+Proof. exact (auth_roundtrip a). Qed.
+Theorem c15_auth_length_refused b : length b <> 148%nat -> auth_decode b = None.
+Proof. exact (auth_length_refused b). Qed.
+Theorem c15_auth_decode_encode b a : auth_decode b = Some a -> auth_serialize a = b /\ auth_wf a.
+Proof. exact (auth_decode_encode b a). Qed.
+Theorem c15_auth_decode_injective b1 b2 a : auth_decode b1 = Some a -> auth_decode b2 = Some a -> b1 = b2.
+Proof. exact (auth_decode_injective b1 b2 a). Qed.
+Theorem c15_auth_layout a :
+  auth_serialize a =
+    (le_enc 4 (a_id a) ++ pad 32 (a_key a) ++ le_enc 8 (a_lat a) ++ le_enc 8 (a_long a) ++ le_enc 8 (a_cap a) ++
+     le_enc 8 (a_debt a) ++ le_enc 4 (a_exp a) ++ le_enc 4 (a_init a) ++ le_enc 8 (a_fee a)) ++ pad 64 (a_sig a) /\
+  length (auth_serialize a) = 148%nat.
+Proof. exact (conj eq_refl (auth_serialize_length a)). Qed.
+Theorem c15_auth_signing_layout a :
+  auth_signing_bytes a = ascii_bytes "EquipmentAuthorization" ++ firstn 84 (auth_serialize a) /\
+  length (auth_signing_bytes a) = 106%nat.
+Proof. exact (auth_signing_layout a). Qed.
+Theorem c15_auth_signing_injective a1 a2 : auth_wf a1 -> auth_wf a2 ->
+  auth_signing_bytes a1 = auth_signing_bytes a2 -> msg_same_signed (MAuth a1) (MAuth a2).
+Proof. exact (signing_unambiguous (MAuth a1) (MAuth a2)). Qed.
+
+(* ==== GCARegistration ========================================================================== *)
+Theorem c15_reg_signing_layout k :
+  reg_signing_bytes k = ascii_bytes "GCARegistration" ++ pad 32 k /\ length (reg_signing_bytes k) = 47%nat.
+Proof. exact (conj eq_refl (reg_signing_length k)). Qed.
+Theorem c15_reg_signing_injective k1 k2 : reg_wf k1 -> reg_wf k2 -> reg_signing_bytes k1 = reg_signing_bytes k2 -> k1 = k2.
+Proof. exact (reg_signing_injective k1 k2). Qed.
+
+(* ==== weekly statistics: stream codec =========================================================== *)
+(* [memlimit]: the largest block the Go runtime can still allocate *)
+Theorem c15_stats_layout x : stats_wf x ->
+  stats_serialize x =
+    (le_enc 4 (Z.of_nat (length (s_devs x))) ++ devs_encode (s_devs x) ++ le_enc 4 (s_tso x)) ++ pad 64 (s_sig x) /\
+  (forall d, dev_encode d = pad 32 (d_key d) ++ u64s_enc (d_pow d) ++ u64s_enc (d_imp d)) /\
+  length (stats_serialize x) = (4 + length (s_devs x) * dev_size + 4 + 64)%nat /\
+  Z.of_nat dev_size = 32 + 8 * 2 * 2016.
+Proof. intros H. exact (conj eq_refl (conj (fun d => eq_refl) (conj (stats_serialize_length x H) dev_size_z_eq))). Qed.
+Theorem c15_stats_stream_roundtrip memlimit x rest : stats_wf x ->
+  stats_alloc (Z.of_nat (length (s_devs x))) <= memlimit ->
+  stats_stream_decode memlimit (stats_serialize x ++ rest) = DOk x (length (stats_serialize x)).
+Proof. exact (stats_stream_roundtrip memlimit x rest). Qed.
+Theorem c15_stats_stream_concat memlimit xs : Forall stats_wf xs ->
+  Forall (fun x => stats_alloc (Z.of_nat (length (s_devs x))) <= memlimit) xs ->
+  stats_stream_all (S (length (stats_list_encode xs))) memlimit (stats_list_encode xs) =
+    DOk xs (length (stats_list_encode xs)).
+Proof.
+  intros W M. apply (stats_stream_all_roundtrip memlimit xs _ W M).
+  clear M. induction W as [|x xs Hx Hxs IH]; [cbn; lia|].
+  cbn [stats_list_encode length]. rewrite app_length, stats_serialize_length by exact Hx. lia.
+Qed.
+Theorem c15_stats_stream_decode_encode memlimit b x n : stats_stream_decode memlimit b = DOk x n ->
+  stats_serialize x = firstn n b /\ stats_wf x /\ (72 <= n <= length b)%nat.
+Proof. exact (stats_stream_decode_sound memlimit b x n). Qed.
+Theorem c15_stats_truncated_refused memlimit x n : stats_wf x -> (n < length (stats_serialize x))%nat ->
+  stats_stream_decode memlimit (firstn n (stats_serialize x)) = DErr.
+Proof. exact (stats_truncated_refused memlimit x n). Qed.
+(* D15, after the repair: no input makes the decoder (or the loading loop) ask for more memory
+   than the input itself occupies; never fatal, and the loop's fuel is never exhausted *)
+Theorem c15_stream_total memlimit b : Z.of_nat (length b) <= memlimit ->
+  stats_stream_decode memlimit b <> DFatal /\
+  stats_stream_all (S (length b)) memlimit b <> DFatal /\
+  stats_stream_all (S (length b)) memlimit b <> DFuel.
+Proof.
+  intros H. exact (conj (stats_stream_total memlimit b H) (conj (stats_stream_all_total memlimit _ b H)
+    (stats_stream_all_fuel_enough memlimit _ b (Nat.lt_succ_diag_r _)))).
+Qed.
+(* D15, before the repair (the model of the old code): four bytes are fatal *)
+Theorem c15_stream_total_before_fix_refuted memlimit : memlimit < (2^32 - 1) * 32288 ->
+  exists b, length b = 4%nat /\ stats_stream_decode_prefix memlimit b = DFatal /\
+            stats_stream_decode memlimit b = DErr.
+Proof.
+  intros H. exists [Byte.xff; Byte.xff; Byte.xff; Byte.xff].
+  exact (conj eq_refl (conj (stats_stream_prefix_fatal memlimit H) (stats_stream_ffffffff_refused memlimit))).
+Qed.
+Theorem c15_stats_signing_layout x : stats_wf x ->
+  stats_signing_bytes x = ascii_bytes "AllDeviceStats" ++ firstn (length (stats_serialize x) - 64) (stats_serialize x).
+Proof. exact (stats_signing_layout x). Qed.
+Theorem c15_stats_signing_injective x1 x2 : stats_wf x1 -> stats_wf x2 ->
+  stats_signing_bytes x1 = stats_signing_bytes x2 -> s_devs x1 = s_devs x2 /\ s_tso x1 = s_tso x2.
+Proof. exact (stats_signing_injective x1 x2). Qed.
+
+(* ==== AuthorizedServer (location of at most 255 bytes) ============================================ *)
+Theorem c15_aserver_layout s : length (as_key s) = 32%nat ->
+  aserver_serialize s =
+    (pad 32 (as_key s) ++ [bool_byte (as_banned s)] ++ [z2b (Z.of_nat (length (as_loc s)))] ++ as_loc s ++
+     le_enc 2 (as_http s) ++ le_enc 2 (as_tcp s) ++ le_enc 2 (as_udp s)) ++ pad 64 (as_sig s) /\
+  length (aserver_serialize s) = (104 + length (as_loc s))%nat.
+Proof. intros H. exact (conj eq_refl (aserver_serialize_length s H)). Qed.
+Theorem c15_aserver_roundtrip s rest : aserver_wf s ->
+  aserver_decode (aserver_serialize s) = Some s /\
+  aserver_decode_prefix (aserver_serialize s ++ rest) = DOk s (length (aserver_serialize s)).
+Proof. intros H. exact (conj (aserver_roundtrip s H) (aserver_prefix_roundtrip s rest H)). Qed.
+Theorem c15_aserver_decode_encode b s : aserver_decode b = Some s ->
+  aserver_serialize s = b /\ aserver_wf s /\ length b = (104 + length (as_loc s))%nat.
+Proof.
+  intros H. exact (conj (proj1 (aserver_decode_encode b s H)) (conj (proj2 (aserver_decode_encode b s H))
+    (aserver_length_refused b s H))).
+Qed.
+Theorem c15_aserver_signing_layout s : length (as_key s) = 32%nat ->
+  aserver_signing_bytes s =
+    ascii_bytes "AuthorizedServer" ++ firstn (length (aserver_serialize s) - 64) (aserver_serialize s).
+Proof. exact (aserver_signing_layout s). Qed.
+Theorem c15_aserver_signing_injective s1 s2 : aserver_wf s1 -> aserver_wf s2 ->
+  aserver_signing_bytes s1 = aserver_signing_bytes s2 -> msg_same_signed (MServer s1) (MServer s2).
+Proof. exact (signing_unambiguous (MServer s1) (MServer s2)). Qed.
+(* outside the domain: the length byte is the length modulo 256 *)
+Theorem c15_aserver_roundtrip_beyond_255_refuted :
+  exists s, length (as_key s) = 32%nat /\ length (as_loc s) = 256%nat /\ length (as_sig s) = 64%nat /\
+            aserver_decode (aserver_serialize s) <> Some s.
+Proof. exact aserver_roundtrip_beyond_255_refuted. Qed.
+
+(* ==== EquipmentMigration ============================================================================ *)
+Theorem c15_migration_layout m :
+  migration_serialize m =
+    (pad 32 (m_equip m) ++ pad 32 (m_newgca m) ++ le_enc 4 (m_newid m) ++ aservers_encode (m_servers m)) ++
+    pad 64 (m_sig m).
+Proof. exact eq_refl. Qed.
+Theorem c15_migration_roundtrip m : migration_wf m ->
+  migration_decode (migration_serialize m) = DOk m (length (migration_serialize m)).
+Proof. exact (migration_roundtrip m). Qed.
+Theorem c15_migration_decode_encode b m n : migration_decode b = DOk m n ->
+  migration_serialize m = b /\ migration_wf m /\ n = length b.
+Proof. exact (migration_decode_sound b m n). Qed.
+Theorem c15_migration_signing_layout m :
+  migration_signing_bytes m =
+    ascii_bytes "EquipmentMigration" ++ firstn (length (migration_serialize m) - 64) (migration_serialize m).
+Proof. exact (migration_signing_layout m). Qed.
+Theorem c15_migration_signing_injective m1 m2 : migration_wf m1 -> migration_wf m2 ->
+  migration_signing_bytes m1 = migration_signing_bytes m2 ->
+  m_equip m1 = m_equip m2 /\ m_newgca m1 = m_newgca m2 /\ m_newid m1 = m_newid m2 /\ m_servers m1 = m_servers m2.
+Proof. exact (migration_signing_injective m1 m2). Qed.
+(* outside the domain (a location of 256 bytes): two different orders, one byte string *)
+Theorem c15_migration_signing_beyond_255_refuted :
+  exists m1 m2, length (m_servers m1) <> length (m_servers m2) /\ migration_wf m2 /\
+                migration_signing_bytes m1 = migration_signing_bytes m2.
+Proof. exact migration_signing_beyond_255_refuted. Qed.
+
+(* ==== the client's server map (locations of 0..65535 bytes) ========================================== *)
+Theorem c15_smap_layout (e : centry) :
+  centry_encode e =
+    pad 32 (fst e) ++ [bool_byte (cs_banned (snd e))] ++ le_enc 2 (Z.of_nat (length (cs_loc (snd e)))) ++
+    cs_loc (snd e) ++ le_enc 2 (cs_http (snd e)) ++ le_enc 2 (cs_tcp (snd e)) ++ le_enc 2 (cs_udp (snd e)).
+Proof. exact eq_refl. Qed.
+(* every iteration order l of a map m with distinct keys decodes back to m *)
+Theorem c15_smap_roundtrip (m l : list centry) : NoDup (map fst m) -> Forall centry_wf m -> Permutation l m ->
+  exists b, smap_encode l = Some b /\ smap_decode b = DOk l (length b) /\
+            forall k, smap_lookup k l = smap_lookup k m.
+Proof. exact (smap_roundtrip m l). Qed.
+Theorem c15_smap_too_long_refused (l : list centry) (e : centry) :
+  In e l -> 65535 < Z.of_nat (length (cs_loc (snd e))) -> smap_encode l = None.
+Proof. exact (smap_encode_too_long l e). Qed.
+Theorem c15_smap_trailing_refused (l : list centry) b t : Forall centry_wf l -> smap_encode l = Some b ->
+  (0 < length t < 41)%nat -> smap_decode (b ++ t) = DErr.
+Proof. exact (smap_trailing_refused l b t). Qed.
+Theorem c15_smap_decode_total b : smap_decode b <> DFuel /\ smap_decode b <> DFatal.
+Proof. exact (smap_decode_total b). Qed.
+(* decoding is not injective on byte strings: any non-zero banned byte reads as "banned" *)
+Theorem c15_smap_decode_injective_refuted :
+  exists b1 b2 l n, b1 <> b2 /\ smap_decode b1 = DOk l n /\ smap_decode b2 = DOk l n.
+Proof. exact smap_decode_not_injective. Qed.
+
+(* ==== signing bytes of the six message types ========================================================= *)
+(* no byte string is the signing bytes of two different message types, for ALL field values *)
+Theorem c15_signing_disjoint m1 m2 : msg_signing_bytes m1 = msg_signing_bytes m2 -> msg_type m1 = msg_type m2.
+Proof. exact (signing_disjoint m1 m2). Qed.
+(* same signing bytes => same type and same signed fields *)
+Theorem c15_signing_unambiguous m1 m2 : msg_wf m1 -> msg_wf m2 ->
+  msg_signing_bytes m1 = msg_signing_bytes m2 -> msg_same_signed m1 m2.
+Proof. exact (signing_unambiguous m1 m2). Qed.
+Theorem c15_signing_prefix m : exists rest,
+  msg_signing_bytes m =
+    ascii_bytes (match m with
+                 | MReport _ => "EquipmentReport" | MAuth _ => "EquipmentAuthorization"
+                 | MMigration _ => "EquipmentMigration" | MServer _ => "AuthorizedServer"
+                 | MStats _ => "AllDeviceStats" | MReg _ => "GCARegistration"
+                 end) ++ rest.
+Proof. exact (msg_signing_split m). Qed.
+
+(* "changing any signed bit makes verification fail": for any verify (key, message, signature)
+   under which a signature is valid for at most one message, a message with different signed
+   fields -- of the same or of another type -- is rejected under the same key and signature *)
+Theorem c15_changed_signed_value_rejected
+  (verify : bytes -> bytes -> bytes -> bool)
+  (verify_binds : forall k m1 m2 s, verify k m1 s = true -> verify k m2 s = true -> m1 = m2)
+  k s m1 m2 : msg_wf m1 -> msg_wf m2 ->
+  verify k (msg_signing_bytes m1) s = true -> ~ msg_same_signed m1 m2 ->
+  verify k (msg_signing_bytes m2) s = false.
+Proof.
+  exact (changed_value_rejected verify verify_binds msg msg_signing_bytes msg_wf msg_same_signed
+           signing_unambiguous k s m1 m2).
+Qed.
+
+(* ---- non-vacuity of the hypotheses ---------------------------------------------------------------- *)
+Example c15_nonvacuous_verify : forall k m1 m2 s,
+  toy_verify k m1 s = true -> toy_verify k m2 s = true -> m1 = m2.
+Proof. exact toy_verify_binds. Qed.
+Example c15_nonvacuous_wf :
+  report_wf blank_report /\ auth_wf blank_auth /\ reg_wf (zeros 32) /\
+  stats_wf {| s_devs := []; s_tso := 0; s_sig := zeros 64 |} /\
+  aserver_wf {| as_key := zeros 32; as_banned := true; as_loc := zeros 255; as_http := 0; as_tcp := 0;
+                as_udp := 65535; as_sig := zeros 64 |} /\
+  migration_wf collide_m2 /\
+  centry_wf (zeros 32, {| cs_banned := false; cs_loc := []; cs_http := 0; cs_tcp := 0; cs_udp := 0 |}).
+Proof.
+  split; [unfold report_wf; cbn; repeat split; lia|].
+  split; [unfold auth_wf; cbn; repeat split; lia|].
+  split; [reflexivity|].
+  split; [unfold stats_wf; cbn; repeat split; try lia; constructor|].
+  split; [unfold aserver_wf; cbn; repeat split; lia|].
+  split; [exact collide_m2_wf|].
+  unfold centry_wf; cbn; repeat split; lia.
+Qed.
